@@ -264,6 +264,21 @@ def history(draw, tier="quick"):
     k = draw(st.sampled_from([2, 2, 2, 3, 3, 4]))
     n = draw(st.sampled_from([1, 2, 2, 3, 3, 3, 4, 4, 5, 5, 6, 7, 8] if tier == "thorough" else [1, 2, 2, 3, 3, 3, 4, 4, 5, 5]))
     kernels = []
+    if n >= 3 and draw(st.integers(0, 3)) == 0:
+        # routing family: one kernel and variants that feed ONE operand slot from different sources (inputs and earlier results, in any
+        # order): several routings pile up on one port of the merged element (stacked muxes)
+        base = _fresh(draw, k, names)
+        j = draw(st.integers(0, len(base["ops"]) - 1))
+        pslot = draw(st.integers(1, 2))
+        sources = list(draw(st.permutations(list(range(k + j)))))
+        kernels.append(base)
+        for src in sources[: n - 1]:
+            ops = [list(o) for o in base["ops"]]
+            ops[j][pslot] = src
+            kernels.append(dict(ops=_cover(draw, k, ops), ret=base["ret"], dead=list(base["dead"])))
+        if draw(st.booleans()):
+            kernels = list(draw(st.permutations(kernels)))
+        n = 0
     for _ in range(n):
         if kernels and draw(st.integers(0, 9)) < 6:
             base = draw(st.sampled_from(kernels))
